@@ -30,6 +30,12 @@ CHECKS["C08"] = {
         {"pkg": "graphql", "harness": "Harness_C08_writeQuotedString", "reach": ["quoted.checked"],
          "quick": {"params": {"n": 3}, "workers": 8}, "thorough": {"params": {"n": 4}, "workers": 14},
          "what": "writeQuotedString on every byte string of length n: RFC 8259 token, RFC 3629 validity, decode = input with U+FFFD"},
+        {"pkg": "graphql", "harness": "Harness_C08_MarshalStringID", "reach": ["quoted.checked"], "quick": {"params": {"n": 2}}, "thorough": {"params": {"n": 3}},
+         "what": "MarshalString / MarshalID through the Marshaler interface on every byte string of length n"},
+        {"pkg": "graphql", "harness": "Harness_C08_intRoundTrip", "reach": ["c08.ints"], "quick": {"sample_models": 100},
+         "what": "Marshal{Int,Int64,Int32,Uint64,Uint32,IntID,UintID} -> JSON decode -> Unmarshal* on a 12-value boundary grid"},
+        {"pkg": "graphql", "harness": "Harness_C08_float", "reach": ["c08.float"],
+         "what": "MarshalFloatContext: error iff non-finite, for every float64 bit pattern (FloatingPoint theory)"},
     ],
 }
 
@@ -226,5 +232,16 @@ CHECKS["C12"] = {
              what="multipartResponseAggregator Add/flush/Done over 1 + 0..3 payloads with a symbolic flush tick at every point: independent multipart parser on the bytes"),
         dict(_WS, harness="Harness_C12_sse", reach=["c12.sse"], race=True, sched_confirm=True, quick={"params": {"ticks": 1}, "sample_models": 10, "sample_every": 7}, thorough={"params": {"ticks": 2}},
              what="SSE.Do with 0..2 payloads / rejected operation, keep-alive ticker firing at any scheduling point, every write a preemption point: event grammar, exactly-once, no overlapping writes, race check"),
+    ],
+}
+
+CHECKS["C02"] = {
+    "prepare": probes.prepare,
+    "assumptions": ["strconv runs interpreted from source on the concrete boundary grid; typed inputs are symbolic at full width"],
+    "harnesses": [
+        {"pkg": "graphql", "harness": "Harness_C02_typedInts", "reach": ["c02.typed"], "workers": 6,
+         "what": "Unmarshal{Int,Int64,Int32,Uint,Uint64,Uint32,IntID,UintID} on typed inputs (int, int64, int32, uint64) with symbolic 64-bit values: accepted => mathematically unchanged; in-range => accepted"},
+        {"pkg": "graphql", "harness": "Harness_C02_stringInts", "reach": ["c02.strings"], "workers": 6, "quick": {"sample_models": 200, "sample_every": 3},
+         "what": "the same functions on string / json.Number inputs from a 30-entry boundary grid"},
     ],
 }
